@@ -1,8 +1,9 @@
 (* C15 — concrete instances of the abstract library primitives.  Definitions only.
 
    [pack_name_c] is the library's packDomainName (msg.go) with its compression dictionary,
-   for presentation names without escapes (a name containing a backslash is refused by
-   this model; the drivers never ask it about one).  [pack_rr_c] is packRR for records
+   for every presentation name, backslash escapes included (session 5: \DDD and \c are decoded
+   by the label loop, the dictionary stays keyed on the source text, Len() is the decoded
+   length).  [pack_rr_c] is packRR for records
    whose rdata is a sequence of steps: literal octets, a domain name (compressible or
    not), or an advance over octets that are NOT written (packDataA on a 16-byte non-IPv4
    address), plus the two one-octet look-aheads SPoke0 / SRoom1 below.  A, AAAA, NS, CNAME, PTR, MX,
@@ -33,15 +34,37 @@ Definition dot : N := 46%N.
 Definition backslash : N := 92%N.
 Definition max_compression_offset : nat := 16384. (* msg.go: maxCompressionOffset = 2 << 13 *)
 
-(* the label loop of packDomainName; [lab] is the label read so far, [rest] what follows.
+(* presentation-format escapes (msg.go isDDD / dddToByte): a backslash followed by three decimal
+   digits is the octet DDD (byte arithmetic: modulo 256), a backslash followed by anything else is
+   that octet taken literally (a dot that does not end a label, a backslash) *)
+Definition is_digit (c : N) : bool := ((48 <=? c) && (c <=? 57))%N.
+Definition ddd_byte (c1 c2 c3 : N) : N := (((c1 - 48) * 100 + (c2 - 48) * 10 + (c3 - 48)) mod 256)%N.
+
+(* the label loop of packDomainName; [lab] is the label read so far AS DECODED OCTETS, [key] the
+   SOURCE text from the first octet of the current label to the end of the name (s[compBegin:]:
+   the dictionary is keyed on the text as written, escapes and all), [rest] what follows.  An
+   escape asks for one octet of room at the current offset (`off+1 > len(msg)`) before anything of
+   the label is written.
    Result: writes, offset, dictionary, need, and the compression pointer if the loop broke *)
-Fixpoint pn_loop (rest lab : name) (off : nat) (cm : option dict) (compress : bool)
+Fixpoint pn_loop (rest lab key : name) (off : nat) (cm : option dict) (compress : bool)
          (ws : list (nat * buf)) (need : nat)
   : option (list (nat * buf) * nat * option dict * nat * option nat) :=
   match rest with
   | [] => Some (ws, off, cm, need, None)
   | c :: r =>
-      if (c =? backslash)%N then None
+      if (c =? backslash)%N then
+        match r with
+        | [] => None                                     (* a name ending in a lone backslash is not fully qualified *)
+        | c1 :: r1 =>
+            let need1 := Nat.max need (off + 1) in
+            match r1 with
+            | c2 :: c3 :: r3 =>
+                if is_digit c1 && is_digit c2 && is_digit c3
+                then pn_loop r3 (lab ++ [ddd_byte c1 c2 c3]) key off cm compress ws need1
+                else pn_loop r1 (lab ++ [c1]) key off cm compress ws need1
+            | _ => pn_loop r1 (lab ++ [c1]) key off cm compress ws need1
+            end
+        end
       else if (c =? dot)%N then
         match lab with
         | [] => None                                   (* leading dot / two dots: ErrRdata *)
@@ -49,9 +72,8 @@ Fixpoint pn_loop (rest lab : name) (off : nat) (cm : option dict) (compress : bo
             if 64 <=? length lab then None             (* top two bits of the length must be clear *)
             else
               let need' := Nat.max need (off + 1 + length lab) in
-              let key := lab ++ c :: r in              (* s[compBegin:] *)
               let go (cm' : option dict) :=
-                pn_loop r [] (off + 1 + length lab) cm' compress
+                pn_loop r [] r (off + 1 + length lab) cm' compress
                         (ws ++ [(off, N.of_nat (length lab) :: lab)]) need' in
               match cm with
               | None => go None
@@ -62,18 +84,23 @@ Fixpoint pn_loop (rest lab : name) (off : nat) (cm : option dict) (compress : bo
                   end
               end
         end
-      else pn_loop r (lab ++ [c]) off cm compress ws need
+      else pn_loop r (lab ++ [c]) key off cm compress ws need
   end.
 
-Definition ends_with_dot (s : name) : bool := match rev s with c :: _ => (c =? dot)%N | [] => false end.
+(* defaults.go IsFqdn: the last octet is a dot and the run of backslashes in front of it has even
+   length (an odd run escapes the dot) *)
+Fixpoint leading_backslashes (s : name) : nat :=
+  match s with c :: r => if (c =? backslash)%N then S (leading_backslashes r) else 0 | [] => 0 end.
+Definition is_fqdn (s : name) : bool :=
+  match rev s with c :: t => (c =? dot)%N && Nat.even (leading_backslashes t) | [] => false end.
 
 Definition plan_name (s : name) (off : nat) (cm : option dict) (compress : bool) : option plan :=
   match s with
   | [] => Some (mk_plan [] off cm 0)                                   (* len(s) == 0: return off, nil *)
   | _ =>
-      if negb (ends_with_dot s) then None                              (* ErrFqdn *)
+      if negb (is_fqdn s) then None                                    (* ErrFqdn *)
       else if bytes_eqb s [dot] then Some (mk_plan [(off, [0%N])] (off + 1) cm (off + 1))
-      else match pn_loop s [] off cm compress [] 0 with
+      else match pn_loop s [] s off cm compress [] 0 with
            | None => None
            | Some (ws, o, cm', need, Some p) =>
                Some (mk_plan (ws ++ [(o, u16_bytes (N.of_nat p + 49152))]) (o + 2) cm' need)
@@ -92,9 +119,27 @@ Definition pack_name_c (s : name) (b : buf) (off : nat) (cm : option dict) (comp
   | Some pl => if length b <? p_need pl then None else Some (p_off pl, apply_writes b (p_writes pl), p_cm pl)
   end.
 
-(* domainNameLen(s, off, nil, false) for escape-free names *)
+(* msg.go escapedNameLen: the length of the text with every escape counted as the one octet it
+   stands for (a lone backslash at the very end counts nothing) *)
+Fixpoint dec_len (s : name) : nat :=
+  match s with
+  | [] => 0
+  | c :: r =>
+      if (c =? backslash)%N then
+        match r with
+        | [] => 0
+        | c1 :: r1 =>
+            match r1 with
+            | c2 :: c3 :: r3 => if is_digit c1 && is_digit c2 && is_digit c3 then S (dec_len r3) else S (dec_len r1)
+            | _ => S (dec_len r1)
+            end
+        end
+      else S (dec_len r)
+  end.
+
+(* domainNameLen(s, off, nil, false): "" and "." are one octet, any other name its decoded length + 1 *)
 Definition name_len (s : name) : nat :=
-  match s with [] => 1 | _ => if bytes_eqb s [dot] then 1 else length s + 1 end.
+  match s with [] => 1 | _ => if bytes_eqb s [dot] then 1 else dec_len s + 1 end.
 Definition q_len_c (s : name) : nat := name_len s + 4.
 
 (* ---- records ---- *)
